@@ -13,11 +13,11 @@ Design notes
   is decidable on this representation without floating point.  (Go goes
   through `float64`; the two agree whenever the literal is exactly
   representable – IEEE rounding of long numerals is outside the model.)
-* Objects are association lists in source order.  Go decodes objects into
-  `map[string]json.RawMessage`, so a duplicated key keeps its LAST value:
-  `getKey` is last-wins.  Functions that iterate over all members of an
-  object (typed maps) treat the list as is; the correspondence harness only
-  generates objects without duplicate keys (`NoDupKeys`).
+* Objects are association lists in source order, duplicates allowed.  Go
+  decodes objects into `map[string]json.RawMessage`, so a duplicated key keeps
+  its LAST value: `getKey` is last-wins, and `dedupLast` is what such a decode
+  retains (`(k, v) ∈ dedupLast kvs ↔ getKey k kvs = some v`).  Everything the
+  type system does with an object goes through one of the two.
 -/
 namespace Martian.Json
 
@@ -111,5 +111,109 @@ theorem getKey_isSome_of_mem {k : Bytes} {kvs : List (Bytes × J)} {v : J}
       · have := ih h
         rw [hr] at this
         cases this
+
+/-! ### duplicate keys: last-wins normal form -/
+
+theorem getKey_eq_none_iff {k : Bytes} {kvs : List (Bytes × J)} :
+    getKey k kvs = none ↔ k ∉ kvs.map Prod.fst := by
+  constructor
+  · intro h hm
+    obtain ⟨⟨k', v⟩, hkv, hk⟩ := List.mem_map.mp hm
+    simp only at hk; subst hk
+    have := getKey_isSome_of_mem hkv
+    rw [h] at this; cases this
+  · intro h
+    cases hg : getKey k kvs with
+    | none => rfl
+    | some v => exact absurd (List.mem_map.mpr ⟨(k, v), getKey_mem hg, rfl⟩) h
+
+/-- what Go's decoder into a `map` retains of an object: for every key its
+LAST member (in the position of that last occurrence) -/
+def dedupLast : List (Bytes × J) → List (Bytes × J)
+  | [] => []
+  | kv :: r => if kv.1 ∈ r.map Prod.fst then dedupLast r else kv :: dedupLast r
+
+theorem mem_dedupLast_iff {k : Bytes} {v : J} : ∀ {kvs : List (Bytes × J)},
+    (k, v) ∈ dedupLast kvs ↔ getKey k kvs = some v
+  | [] => by simp [dedupLast, getKey]
+  | (k', v') :: r => by
+    have ih := @mem_dedupLast_iff k v r
+    simp only [dedupLast, getKey]
+    by_cases hc : k' ∈ r.map Prod.fst
+    · rw [if_pos hc, ih]
+      cases hg : getKey k r with
+      | some w => rfl
+      | none =>
+        have hk : k ∉ r.map Prod.fst := getKey_eq_none_iff.mp hg
+        have : k' ≠ k := by rintro rfl; exact hk hc
+        simp [this]
+    · have hk' : k' ∉ r.map Prod.fst := hc
+      rw [if_neg hc]
+      simp only [List.mem_cons, Prod.mk.injEq, ih]
+      cases hg : getKey k r with
+      | some w =>
+        have hk : k ∈ r.map Prod.fst := List.mem_map.mpr ⟨(k, w), getKey_mem hg, rfl⟩
+        have : k ≠ k' := by rintro rfl; exact hk' hk
+        simp [this]
+      | none =>
+        by_cases h : k' = k
+        · subst h; simp [eq_comm]
+        · have h2 : ¬ k = k' := fun e => h e.symm
+          simp [h, h2]
+
+theorem mem_of_mem_dedupLast {kv : Bytes × J} {kvs : List (Bytes × J)}
+    (h : kv ∈ dedupLast kvs) : kv ∈ kvs := by
+  obtain ⟨k, v⟩ := kv
+  exact getKey_mem (mem_dedupLast_iff.mp h)
+
+theorem keys_dedupLast_nodup : ∀ (kvs : List (Bytes × J)), ((dedupLast kvs).map Prod.fst).Nodup
+  | [] => by simp [dedupLast]
+  | (k', v') :: r => by
+    have ih := keys_dedupLast_nodup r
+    simp only [dedupLast]
+    by_cases hc : k' ∈ r.map Prod.fst
+    · rw [if_pos hc]; exact ih
+    · rw [if_neg hc, List.map_cons, List.nodup_cons]
+      refine ⟨?_, ih⟩
+      intro hm
+      obtain ⟨⟨k, v⟩, hkv, hk⟩ := List.mem_map.mp hm
+      simp only at hk; subst hk
+      exact hc (List.mem_map.mpr ⟨(k, v), mem_of_mem_dedupLast hkv, rfl⟩)
+
+theorem dedupLast_of_nodup : ∀ {kvs : List (Bytes × J)}, (kvs.map Prod.fst).Nodup → dedupLast kvs = kvs
+  | [], _ => rfl
+  | (k', v') :: r, h => by
+    simp only [List.map_cons, List.nodup_cons] at h
+    simp only [dedupLast]
+    rw [if_neg h.1, dedupLast_of_nodup h.2]
+
+/-- a map over the values that keeps the keys commutes with member lookup -/
+theorem getKey_mapVal (g : J → J) (k : Bytes) : ∀ (kvs : List (Bytes × J)),
+    getKey k (kvs.map fun kv => (kv.1, g kv.2)) = (getKey k kvs).map g
+  | [] => rfl
+  | (k', v') :: r => by
+    simp only [List.map_cons, getKey, getKey_mapVal g k r]
+    cases getKey k r with
+    | some w => rfl
+    | none => by_cases h : k' = k <;> simp [h]
+
+theorem getKey_dedupLast (k : Bytes) (kvs : List (Bytes × J)) :
+    getKey k (dedupLast kvs) = getKey k kvs := by
+  cases hg : getKey k kvs with
+  | some v =>
+    have hm := mem_dedupLast_iff.mpr hg
+    have := mem_dedupLast_iff (kvs := dedupLast kvs) (k := k) (v := v)
+    rw [dedupLast_of_nodup (keys_dedupLast_nodup kvs)] at this
+    exact this.mp hm
+  | none =>
+    rw [getKey_eq_none_iff] at hg ⊢
+    intro hm
+    obtain ⟨⟨k', v⟩, hkv, hk⟩ := List.mem_map.mp hm
+    simp only at hk; subst hk
+    exact hg (List.mem_map.mpr ⟨(k', v), mem_of_mem_dedupLast hkv, rfl⟩)
+
+theorem keys_mapVal (g : Bytes × J → J) (kvs : List (Bytes × J)) :
+    (kvs.map fun kv => (kv.1, g kv)).map Prod.fst = kvs.map Prod.fst := by
+  simp [List.map_map, Function.comp_def]
 
 end Martian.Json
